@@ -16,9 +16,9 @@ import (
 	"encoding/hex"
 	"io"
 	"log/slog"
-	"net"
 	"strconv"
 	"strings"
+	"sync"
 	"sync/atomic"
 	"time"
 
@@ -46,6 +46,26 @@ func (hostileCodec) Unmarshal(data []byte, v any) error {
 	return protov2.Unmarshal(data, protov1.MessageV2(v))
 }
 func (hostileCodec) Name() string { return "proto" }
+
+var (
+	sharedGrpcMu    sync.Mutex
+	sharedGrpcAddrs []string
+	sharedGrpcTurn  int
+)
+
+// sharedGrpc: a few scripted gRPC servers for the whole driver process, used in turn (runs that make the server go
+// away get their own). Every gun instance opens its own connection: one server port would run out of client ports.
+func sharedGrpc() string {
+	sharedGrpcMu.Lock()
+	defer sharedGrpcMu.Unlock()
+	if len(sharedGrpcAddrs) < 8 {
+		a, _ := newHostileGrpc(0)
+		sharedGrpcAddrs = append(sharedGrpcAddrs, a)
+		return a
+	}
+	sharedGrpcTurn++
+	return sharedGrpcAddrs[sharedGrpcTurn%len(sharedGrpcAddrs)]
+}
 
 func newHostileGrpc(stopAfter int) (addr string, stop func()) {
 	var calls atomic.Int64
@@ -98,10 +118,7 @@ func newHostileGrpc(stopAfter int) (addr string, stop func()) {
 	srv := server.NewServer(slog.New(slog.NewTextHandler(io.Discard, nil)), 1)
 	server.RegisterTargetServiceServer(gs, srv)
 	reflection.Register(gs)
-	l, err := net.Listen("tcp", "127.0.0.1:0")
-	if err != nil {
-		panic(err)
-	}
+	l := listenRetry()
 	go func() { _ = gs.Serve(l) }()
 	return l.Addr().String(), gs.Stop
 }
